@@ -150,8 +150,22 @@ def exact_expected(t):
     return not (c["rule"] in STV_RULES + ("Alaska",) and c["xfer"] == "fractional")
 
 
+FLAG_PRIORITY = ["thr0", "overelect", "shortpile", "dictator_exhausted", "boosted_last", "veto_below", "tiered_noballots",
+                 "alaska_replay", "noballots"]
+# clauses that are *consequences* of having entered a state the implementation mishandles (any exception class,
+# extra rounds, non-termination ...): under a recorded-finding predicate they are one finding
+CONSEQUENCE = {"NonTermination", "BoundedRounds", "NoRoundEnabled", "Truncated", "OverElected", "ExactlySeats"}
+
+
 def signature(trace, clause, flags):
-    return "%s:%s:%s" % (trace["cfg"]["rule"], clause, "+".join(sorted(flags)) or "-")
+    """rule : KF : the first recorded-finding predicate (fixed priority) true in the state before the failing step, when the
+    clause is a consequence clause; otherwise rule : clause : predicate-or-'-' (content clauses are never folded)."""
+    flags = {"veto_below" if f == "veto_under" else f for f in flags}
+    prim = next((f for f in FLAG_PRIORITY if f in flags), "-")
+    conseq = clause.startswith("Error:") or clause.startswith("RoundAfter:") or clause in CONSEQUENCE or (prim == "veto_below" and clause == "Who")
+    if prim != "-" and conseq:
+        return "%s:KF:%s" % (trace["cfg"]["rule"], prim)
+    return "%s:%s:%s" % (trace["cfg"]["rule"], clause, prim)
 
 
 def judge(res, pid, traces, workdir, monitors=etrace.ALL_MONITORS, nontrivial=None):
@@ -177,6 +191,8 @@ def judge(res, pid, traces, workdir, monitors=etrace.ALL_MONITORS, nontrivial=No
         for rec in v["rejects"] + ([v["final"]] if v["final"]["clause"] else []) + v["monitors"]:
             clause = rec["clause"]
             clause_counts[clause] = clause_counts.get(clause, 0) + 1
+            if pid == "C10" and clause == "Error:ValueError" and rec.get("flags"):
+                continue        # an exception in a state covered by a recorded C01 finding is not a tie-discipline matter
             if pid in clause_property(t["cfg"]["rule"], clause):
                 sig = signature(t, clause, rec.get("flags", []))
                 res.violation(sig, "trace of %s rejected at event %d: clause %s (spec status %s, flags %s)" % (
@@ -262,3 +278,31 @@ def add_slow_slice(rng, inputs, k):
         s["slow"] = True
         inputs.append(s)
     return inputs
+
+
+# ----------------------------------------------------------------------------- generic driver
+ALL_MC_INV = MC_INVARIANTS + ["MProbSum"]
+ALL_MC_PROPS = MC_PROPS + ["MRandomOnlyWithTiebreak"]
+
+
+def standard_run(pid, tier, seed, replay, mc_runs, corpus_fn, nontrivial, rule_text, extra=None, monitors=etrace.ALL_MONITORS):
+    """mc_runs: list of dicts(family, cands, max_ballots, max_w, with_half) per tier key"""
+    res = Result(pid, tier, seed)
+    scratch(pid)
+    res.rule = rule_text
+    if replay:
+        inputs = [json.load(open(replay))["replay"]["input"]]
+    else:
+        for i, mc in enumerate(mc_runs[tier]):
+            model_check(res, pid, mc["family"], mc.get("cands", ["A", "B", "C"]), mc["max_ballots"], mc["max_w"],
+                        with_half=mc.get("with_half", False), invariants=mc.get("invariants", ALL_MC_INV),
+                        props=mc.get("props", ALL_MC_PROPS), name="mc%d_%s" % (i, mc["family"]))
+        inputs = corpus_fn(tier, seed)
+    res.evaluations = len(inputs)
+    res.notes["inputs"] = len(inputs)
+    traces = record_corpus(inputs)
+    res.notes["explored_inputs"] = len({json.dumps(t["_inp"], sort_keys=True) for t in traces if t["_info"].get("explored")})
+    verdicts, byid = judge(res, pid, traces, os.path.join(OUT, pid, "traces"), monitors=monitors, nontrivial=nontrivial)
+    if extra:
+        extra(res, traces, verdicts, byid)
+    return res
